@@ -5,7 +5,7 @@ import re
 KEYWORDS = {'func', 'requires', 'ensures', 'modifies', 'loop', 'invariant', 'decreases', 'writes', 'spec',
             'axiom', 'lemma', 'typeinv', 'effect', 'property', 'wrap', 'track', 'trusted', 'assume',
             'pure', 'ovf', 'replay', 'note', 'havoc', 'package', 'funcvar', 'ghost', 'reads', 'bounded', 'use',
-            'assert', 'cut', 'opaque', 'global', 'globalinv', 'exit', 'entry', 'skip', 'callsite', 'frees'}
+            'assert', 'cut', 'opaque', 'params', 'global', 'globalinv', 'exit', 'entry', 'skip', 'callsite', 'frees'}
 
 
 class SpecError(Exception):
@@ -407,7 +407,9 @@ class Specs(object):
             elif kw == 'axiom':
                 self.axioms.append(Clause('axiom', rest, props, src))
             elif kw == 'globalinv':
-                self.globalinvs.append(Clause('globalinv', rest, props, src))
+                cl = Clause('globalinv', rest, props, src)
+                cl.pkg = pkg
+                self.globalinvs.append(cl)
             elif kw == 'typeinv':
                 tname, e = rest.split(None, 1)
                 self.typeinvs.setdefault(tname, []).append(Clause('typeinv', e, props, src))
@@ -450,6 +452,8 @@ class Specs(object):
                 (curloop.asserts if curloop is not None else cur.asserts).append(Clause('assert', rest, props, src))
             elif kw == 'induction':
                 cur.induction = rest
+            elif kw == 'params':
+                cur.opts['params'] = rest.replace(',', ' ').split()
             elif kw in ('wrap', 'track', 'ovf', 'pure', 'havoc', 'skip', 'entry', 'exit', 'ghost'):
                 cur.opts.setdefault(kw, []).append(rest)
             elif kw == 'trusted':
